@@ -833,6 +833,8 @@ class Interp:
                 return Enum('Ordering', last, vals)
             if head == 'std::ops::ControlFlow':
                 return Enum('ControlFlow', last, vals)
+            if head == 'std::borrow::Cow':
+                return Enum('Cow', last, vals)
             return TAgg(path, vals)
         if k == 'closure':
             return Closure(rv[1], [self.operand(fr, o, f) for o in rv[2]])
@@ -847,6 +849,8 @@ class Interp:
                     return {'Less': -1, 'Equal': 0, 'Greater': 1}[v.variant]
                 if v.ty == 'ControlFlow':
                     return {'Continue': 0, 'Break': 1}[v.variant]
+                if v.ty == 'Cow':
+                    return {'Borrowed': 0, 'Owned': 1}[v.variant]
                 return self.enums[v.ty].index(v.variant)
             raise Unsupported('discriminant of ' + type(v).__name__)
         if k == 'binop':
